@@ -207,8 +207,21 @@ static int c14_limit(toks_t *t)
     int delta = (int)tl(t, 4); long lim = (long)a * b + delta;
     h0 = tj3Init(TJINIT_COMPRESS); tj3Set(h0, TJPARAM_SUBSAMP, TJSAMP_420); tj3Set(h0, TJPARAM_QUALITY, 80); tj3Compress8(h0, img, a, 1200 * 3, b, TJPF_RGB, &jp, &jn); tj3Destroy(h0);
     hd = tj3Init(TJINIT_DECOMPRESS); tj3Set(hd, TJPARAM_MAXPIXELS, (int)lim);
-    rc = tj3DecompressHeader(hd, jp, jn); if (rc == 0) rc = tj3Decompress8(hd, jp, jn, out, 0, TJPF_RGB);
-    printf("R skip rc%d\n", rc);
+    {
+      /* call history before the decompression (t[5]): 0 header of this image, 1 nothing (fresh handle), 2 header of another, small
+         image, 3 nothing and the planar-YUV entry point, 4 a complete decompression of another, small image */
+      int hist = t->n > 5 ? (int)tl(t, 5) : 0; unsigned char *sj = NULL; size_t sn = 0;
+      if (hist == 2 || hist == 4) {
+        tjhandle hs = tj3Init(TJINIT_COMPRESS); tj3Set(hs, TJPARAM_SUBSAMP, TJSAMP_420); tj3Set(hs, TJPARAM_QUALITY, 80); tj3Compress8(hs, img, 16, 1200 * 3, 16, TJPF_RGB, &sj, &sn); tj3Destroy(hs);
+        if (lim >= 256) { rc = tj3DecompressHeader(hd, sj, sn); if (rc == 0 && hist == 4) rc = tj3Decompress8(hd, sj, sn, out, 0, TJPF_RGB); }
+      }
+      rc = 0;
+      if (hist == 0) rc = tj3DecompressHeader(hd, jp, jn);
+      if (rc == 0) rc = hist == 3 ? tj3DecompressToYUV8(hd, jp, jn, out, 4) : tj3Decompress8(hd, jp, jn, out, 0, TJPF_RGB);
+      tj3Free(sj);
+      printf("R skip rc%d hist%d\n", rc, hist);
+      if (lim > 0 && (long)a * b > lim && rc == 0) { printf("O fail limit: %dx%d decompressed although TJPARAM_MAXPIXELS=%ld (call history %d)\n", a, b, lim, hist); tj3Destroy(hd); tj3Free(jp); return 1; }
+    }
     if (lim > 0 && (long)a * b > lim && rc == 0) printf("O fail limit: %dx%d decompressed although TJPARAM_MAXPIXELS=%ld\n", a, b, lim);
     else if (lim > 0 && (long)a * b <= lim && rc < 0) printf("O fail limit: %dx%d refused although TJPARAM_MAXPIXELS=%ld: %s\n", a, b, lim, tj3GetErrorStr(hd));
     else printf("O ok\n");
